@@ -92,7 +92,7 @@ class MainConfig(Contract):
 
 class MainPhysics(MainConfig):
     """second slice: slip factors of the drift and the damping decrement"""
-    tags = {'C03', 'C04'}
+    tags = {'C03', 'C04', 'C05'}
     slice_targets = ['slip', 'e1', 'angle', 'steps', 'fs', 't_damp']
     slice_stop = 'wake_impedance'
     ghosts = {}
@@ -101,8 +101,9 @@ class MainPhysics(MainConfig):
     def ensures(self, cx):
         v = cx.v
         sl = cx.st.array('local:slip', '', parse_type_str('float'))
-        return [('slip0', {'C03'}, And(cx.st.len_of('local:slip') == 3, z3.Select(sl, 0) == v('angle'))),
-                ('angle', {'C03'}, v('angle') == 2 * PI / v('steps')),
+        # C05: the drift and the RF kick advance the synchrotron phase by the same angle per step (the dtheta of the Haissinski relation)
+        return [('slip0', {'C03', 'C05'}, And(cx.st.len_of('local:slip') == 3, z3.Select(sl, 0) == v('angle'))),
+                ('angle', {'C03', 'C05'}, v('angle') == 2 * PI / v('steps')),
                 ('e1', {'C04'}, Implies(v('t_damp') > 0, v('e1') == 2 / (v('fs') * v('t_damp') * v('steps'))))]
 
 
